@@ -224,6 +224,8 @@ def run_property(res, prop, tier, seed, replay, prop_files):
     defs, terms, steps, idxmap = [], [], [], []
     for i, (sc, tr) in enumerate(zip(scs, trs)):
         if "snaps" not in tr:
+            if isinstance(tr, dict) and "panic" in tr:
+                raise ImplementationPanic(tr["panic"], sc, "setting up strategy scenario %d (builder, client, dataset)" % i)
             raise RuntimeError("harness-level failure on strategy scenario %d: %s" % (i, str(tr)[:500]))
         d, t, s = strategy_steps(sc, tr, i)
         defs.append(d)
